@@ -166,6 +166,10 @@ def expected_flow(case):
         cum = {2: c2, 4: (c4 - 2 * c2 ** 2) if k >= 4 else None,
                6: (c6 - 9 * c2 * c4 + 12 * c2 ** 3) if k >= 6 else None}[k]
         x = {2: 1, 4: -1, 6: Fraction(1, 4)}[k] * cum
+        if abs(x) < Fraction(1, 10**12) and imag == "nan":
+            # v_n{k}^k is (numerically) zero: whether the float evaluation lands on -1e-17 (-> NaN in this mode) or on
+            # +1e-17 (-> a root of it) is rounding, not something the property fixes
+            return None
         if x >= 0:
             return ("val", root(x, 1, k))
         return {"negative": ("val", -root(-x, 1, k)), "zero": ("val", 0.0), "nan": ("nan",)}[imag]
